@@ -721,6 +721,16 @@ pub fn c04(a: &Analysis) -> Vec<Violation> {
     if a.settle_overrun {
         out.push(v("C04", "C04/stall/busy-loop", "tasks kept waking each other beyond the settle bound"));
     }
+    // liveness ping (only appended to cases whose inbound bytes are all well-formed packets):
+    // if run() neither returned nor died, it must still be serving
+    if let Some(op) = a.ops.get(&crate::hostile::LIVENESS_PING) {
+        let conn = a.conns.last();
+        let serving = a.ctx_gone.is_none() && conn.map(|c| c.run_started.is_some() && c.run_returned.is_none() && c.read_end_seen.is_none() && c.write_fault_seen.is_none() && !c.write_blocked_at_end && c.consumed == c.inbound_len).unwrap_or(false);
+        let earlier_pings = a.ops.values().filter(|o| matches!(o.spec, OpSpec::Ping) && o.idx != op.idx && o.first_poll.is_some() && o.outcome().is_none()).count();
+        if serving && op.first_poll.is_some() && op.outcome().is_none() && earlier_pings <= 1 {
+            out.push(v("C04", "C04/stall/not-serving", format!("well-formed input was consumed, run() is pending, but a ping issued afterwards never completes ({} bytes consumed)", conn.map(|c| c.consumed).unwrap_or(0))));
+        }
+    }
     // after end-of-stream / read error was reported, the serving call must have returned
     for (c, conn) in a.conns.iter().enumerate() {
         if let Some(end) = conn.read_end_seen {
@@ -1249,7 +1259,7 @@ pub fn c03(a: &Analysis, r: &Analysis) -> Vec<Violation> {
     let oa = observable(a);
     let or = observable(r);
     // the comparison is meaningful only when both executions consumed everything injected
-    let complete = a.fully_consumed() && r.fully_consumed() && a.ctx_dropped.is_none();
+    let complete = a.fully_delivered() && r.fully_delivered() && a.ctx_dropped.is_none();
     if !complete {
         // no verdict on differences
     } else if let Some(d) = first_difference(&oa, &or) {
@@ -1620,6 +1630,60 @@ pub fn c17(a: &Analysis, sc: &Scenario) -> Vec<Violation> {
                 }
             }
         }
+    }
+    out
+}
+
+/// Absolute part of C03 for cases built from explicit well-formed packets: the execution with
+/// one read per packet must observe exactly the injected packets (a framing defect that does
+/// not depend on chunking is invisible to the differential comparison).
+pub fn c03_reference(r: &Analysis, reference: &Scenario) -> Vec<Violation> {
+    let mut out = Vec::new();
+    if r.ctx_gone.is_some() || !r.fully_delivered() {
+        return out;
+    }
+    let mut packets: Vec<Packet> = Vec::new();
+    for s in &reference.steps {
+        if let Step::Broker { pkt: BrokerPkt::Raw(bytes), .. } = s {
+            match rc::decode(bytes) {
+                Ok((p, n)) if n == bytes.len() => packets.push(p),
+                _ => return out, // not a single well-formed packet: no absolute expectation
+            }
+        }
+    }
+    if packets.is_empty() || packets.iter().any(|p| matches!(p, Packet::Connack(_) | Packet::Disconnect(_) | Packet::Auth(_))) {
+        return out;
+    }
+    // stream items
+    for (sub, sid) in &r.op_subid {
+        let want: Vec<&rc::Publish> = packets
+            .iter()
+            .filter_map(|p| match p {
+                Packet::Publish(x) if x.props.varints(pid::SUBSCRIPTION_ID).contains(sid) => Some(x),
+                _ => None,
+            })
+            .collect();
+        let Some(sv) = r.streams.get(sub) else { continue };
+        if sv.opened.is_none() || sv.dropped.is_some() {
+            continue;
+        }
+        let got: Vec<&MessageDigest> = sv.items.iter().map(|i| &i.1).collect();
+        if got.len() != want.len() || got.iter().zip(want.iter()).any(|(g, w)| g.payload != w.payload || g.topic != w.topic || g.qos != w.qos) {
+            out.push(v("C03", "C03/reference-differs-from-injected/stream-items", format!("one read per packet: stream {sub} yielded {} item(s), {} PUBLISH packet(s) were injected for it", got.len(), want.len())));
+        }
+    }
+    // pings
+    let pingresps = packets.iter().filter(|p| matches!(p, Packet::Pingresp)).count();
+    let pings: Vec<&OpView> = r.ops.values().filter(|o| matches!(o.spec, OpSpec::Ping) && o.first_poll.is_some()).collect();
+    let done = pings.iter().filter(|o| o.outcome() == Some(&OpOutcome::Done)).count();
+    if done != pings.len().min(pingresps) {
+        out.push(v("C03", "C03/reference-differs-from-injected/ping", format!("one read per packet: {pingresps} PINGRESP injected for {} ping(s), {done} completed", pings.len())));
+    }
+    // acknowledgements due for injected QoS>0 publishes
+    let due = packets.iter().filter(|p| matches!(p, Packet::Publish(x) if x.qos > 0)).count();
+    let written = r.wire.iter().filter(|w| matches!(w.pkt, Packet::Puback(_) | Packet::Pubrec(_))).count();
+    if due != written {
+        out.push(v("C03", "C03/reference-differs-from-injected/acknowledgements", format!("one read per packet: {due} inbound QoS>0 PUBLISH injected, {written} acknowledged")));
     }
     out
 }
